@@ -4,15 +4,29 @@ package main
 
 // C12: composition revisions form a faithful, monotonic history.
 //
-// Drives the real composition.Reconciler.Reconcile (revision controller) and the
-// real composite.APIRevisionFetcher.Fetch (XR side) over simstore on histories of
+// Drives the real composition.Reconciler.Reconcile (revision controller), the real
+// composite.APIRevisionFetcher.Fetch (XR side) and the real
+// definition.EnqueueForCompositionRevision handler over simstore on histories of
 // Composition edits, owner-reference stripping (backup/restore), faulty
-// reconciles (a fault plan over every API call index) and XR revision selection
-// under each update policy, using the revisions the real controller produced.
+// reconciles (a fault plan over every API call index: crash points, conflicts and
+// every error class the API can answer) and XR revision selection under each
+// update policy, using the revisions the real controller produced.
+//
+// The controller objects (Reconciler, APIRevisionFetcher, event recorder) are built
+// once per process as Setup does and live across the events of a history (rebuilt
+// only after a crash); they talk to the API through c12Client, the CACHED client:
+//   - reads can be served by a lagging informer cache (`lag`: the revisions /
+//     Compositions / XRs as they were some events ago), writes go to the API server
+//     (resourceVersion conflicts, AlreadyExists arise for real);
+//   - other clients (a user, a backup/restore tool, another controller) act on the
+//     store right before API call k of a reconcile / fetch (`env`);
+//   - an injected fault can carry an error class (NotFound, AlreadyExists, Invalid,
+//     Forbidden, server timeout, Temporary() transport error, context deadline).
 
 import (
 	"context"
 	"encoding/json"
+	"errors"
 	"fmt"
 	"go/ast"
 	"go/parser"
@@ -23,15 +37,23 @@ import (
 	"strings"
 
 	corev1 "k8s.io/api/core/v1"
+	kerrors "k8s.io/apimachinery/pkg/api/errors"
+	kmeta "k8s.io/apimachinery/pkg/api/meta"
 	metav1 "k8s.io/apimachinery/pkg/apis/meta/v1"
 	"k8s.io/apimachinery/pkg/apis/meta/v1/unstructured"
 	kruntime "k8s.io/apimachinery/pkg/runtime"
 	"k8s.io/apimachinery/pkg/runtime/schema"
+	"k8s.io/apimachinery/pkg/labels"
 	"k8s.io/apimachinery/pkg/types"
+	"k8s.io/client-go/util/workqueue"
+	"sigs.k8s.io/controller-runtime/pkg/client"
+	"sigs.k8s.io/controller-runtime/pkg/client/apiutil"
+	kevent "sigs.k8s.io/controller-runtime/pkg/event"
 	"sigs.k8s.io/controller-runtime/pkg/reconcile"
 
 	xpv1 "github.com/crossplane/crossplane-runtime/apis/common/v1"
 	"github.com/crossplane/crossplane-runtime/pkg/event"
+	"github.com/crossplane/crossplane-runtime/pkg/logging"
 	"github.com/crossplane/crossplane-runtime/pkg/resource"
 	"github.com/crossplane/crossplane-runtime/pkg/resource/fake"
 	ucomposite "github.com/crossplane/crossplane-runtime/pkg/resource/unstructured/composite"
@@ -39,6 +61,7 @@ import (
 	v1 "github.com/crossplane/crossplane/apis/apiextensions/v1"
 	"github.com/crossplane/crossplane/internal/controller/apiextensions/composite"
 	"github.com/crossplane/crossplane/internal/controller/apiextensions/composition"
+	"github.com/crossplane/crossplane/internal/controller/apiextensions/definition"
 )
 
 // ---- scenario -----------------------------------------------------------------
@@ -57,8 +80,30 @@ type c12Tab struct { // oracle table: what the real code computes for (comp, con
 }
 
 type c12Fault struct {
-	K int    `json:"k"`
-	O string `json:"o"` // fail conflict crashBefore crashAfter
+	K int `json:"k"`
+	// fail conflict crashBefore crashAfter, or an error class answered without applying the
+	// call: notFound alreadyExists invalid forbidden timeout temporary deadline
+	O string `json:"o"`
+}
+
+// c12EnvAt: what other clients do to the store right before API call `before` of a
+// reconcile / fetch (the acts use the vocabulary of the top-level environment events).
+type c12EnvAt struct {
+	Before int     `json:"before"`
+	Acts   []c12Ev `json:"acts"`
+}
+
+// c12Lag: the informer cache behind the controllers' client. d = 0: fresh; d >= 1: reads of
+// that kind are served from the state at the beginning of the event d-1 events back (d = 1:
+// the beginning of this event, so neither this event's own writes nor the interference
+// during it are visible).
+type c12Lag struct {
+	Revs  int `json:"revs,omitempty"`
+	Comps int `json:"comps,omitempty"`
+	XRs   int `json:"xrs,omitempty"`
+	// the cache catches up during the event: reads issued as API call `until` or later are
+	// fresh (0 = it stays behind for the whole event)
+	Until int `json:"until,omitempty"`
 }
 
 type c12CompInit struct {
@@ -83,6 +128,9 @@ type c12Ev struct {
 	Sel    *map[string]string `json:"sel,omitempty"`
 	Pin    string             `json:"pin,omitempty"` // "" keep, "-" clear, else revision name
 	Plan   []c12Fault         `json:"plan,omitempty"`
+	Keep   bool               `json:"keep,omitempty"` // restore: the revisions keep their (now dangling) owner references
+	Env    []c12EnvAt         `json:"env,omitempty"`  // rec / fetch: interference between its API calls
+	Lag    *c12Lag            `json:"lag,omitempty"`  // rec / fetch: informer-cache lag
 }
 
 type c12Scn struct {
@@ -114,6 +162,7 @@ type c12OStep struct {
 	Res   string    `json:"res"`
 	Revs  []c12ORev `json:"revs"`
 	XRefs []string  `json:"xrefs"`
+	Enq   []string  `json:"enq"` // XRs the revision-created handler enqueued (a reconcile that created a revision)
 }
 
 type c12Obs struct {
@@ -224,6 +273,228 @@ func (r *c12Recorder) Event(_ kruntime.Object, e event.Event) {
 }
 func (r *c12Recorder) WithAnnotations(...string) event.Recorder { return r }
 
+// ---- the cached client ----------------------------------------------------------
+
+// c12Classes: the error classes a fault can carry. The call is issued to simstore
+// under outcome `fail` (counted, logged, not applied); only the error is replaced.
+var c12Classes = []string{"notFound", "alreadyExists", "invalid", "forbidden", "timeout", "temporary", "deadline"}
+
+type c12NetErr struct{}
+
+func (c12NetErr) Error() string   { return "simulated transport error: connection reset by peer" }
+func (c12NetErr) Temporary() bool { return true }
+func (c12NetErr) Timeout() bool   { return false }
+
+func c12ClassErr(class string, gk schema.GroupKind, name string) error {
+	gr := schema.GroupResource{Group: gk.Group, Resource: strings.ToLower(gk.Kind)}
+	switch class {
+	case "notFound":
+		return kerrors.NewNotFound(gr, name)
+	case "alreadyExists":
+		return kerrors.NewAlreadyExists(gr, name)
+	case "invalid":
+		return kerrors.NewInvalid(gk, name, nil)
+	case "forbidden":
+		return kerrors.NewForbidden(gr, name, errors.New("simulated RBAC denial"))
+	case "timeout":
+		return kerrors.NewServerTimeout(gr, "call", 1)
+	case "temporary":
+		return c12NetErr{}
+	case "deadline":
+		return context.DeadlineExceeded
+	}
+	return nil
+}
+
+// c12Client is the client the controllers are built with (mgr.GetClient() /
+// engine.GetCached()): simstore, except that (1) a read can be answered from a lagging
+// informer cache and (2) an injected failure can carry an error class. Every call is still
+// issued to simstore, so it is counted, logged and subject to the fault plan.
+type c12Client struct {
+	*Store
+	r *c12Runner
+}
+
+// last returns the log entry of the call just issued (nil: the process is dead, no call happened).
+func (c *c12Client) last(n0 int) *CallInfo {
+	if len(c.Store.Log) == n0 {
+		return nil
+	}
+	return &c.Store.Log[len(c.Store.Log)-1]
+}
+
+// classify replaces the injected server error by the error class of the fault, if it has one.
+func (c *c12Client) classify(last *CallInfo, gk schema.GroupKind, name string, err error) error {
+	if last == nil || last.Outcome != "fail" {
+		return err
+	}
+	for _, f := range c.r.curPlan {
+		if f.K == last.Index {
+			if ce := c12ClassErr(f.O, gk, name); ce != nil {
+				last.Err = errClass(ce)
+				return ce
+			}
+			return err
+		}
+	}
+	return err
+}
+
+func (c *c12Client) Get(ctx context.Context, key client.ObjectKey, obj client.Object, opts ...client.GetOption) error {
+	gvk, gerr := apiutil.GVKForObject(obj, c.Store.Scheme())
+	n0 := len(c.Store.Log)
+	err := c.Store.Get(ctx, key, obj, opts...)
+	last := c.last(n0)
+	if gerr != nil || last == nil {
+		return err
+	}
+	gk := gvk.GroupKind()
+	if last.Outcome != "ok" {
+		return c.classify(last, gk, key.Name, err)
+	}
+	if view := c.r.view(gk, last.Index); view != nil {
+		var m map[string]any
+		for _, o := range view {
+			if strOf(mdOf(o), "name") == key.Name {
+				m = o
+			}
+		}
+		if m == nil {
+			if v := reflect.ValueOf(obj); v.Kind() == reflect.Ptr && !v.IsNil() {
+				if _, isU := obj.(kruntime.Unstructured); !isU {
+					v.Elem().Set(reflect.Zero(v.Elem().Type()))
+				}
+			}
+			err = kerrors.NewNotFound(schema.GroupResource{Group: gk.Group, Resource: strings.ToLower(gk.Kind)}, key.Name)
+			last.Err = "notFound"
+		} else {
+			m = deepCopyMap(m)
+			m["apiVersion"] = gvk.GroupVersion().String()
+			err = c.Store.fromMap(m, obj)
+			last.Err = ""
+		}
+	}
+	if err == nil {
+		c.r.served(gk, obj)
+	}
+	return err
+}
+
+func (c *c12Client) List(ctx context.Context, list client.ObjectList, opts ...client.ListOption) error {
+	gvk, gerr := apiutil.GVKForObject(list, c.Store.Scheme())
+	n0 := len(c.Store.Log)
+	err := c.Store.List(ctx, list, opts...)
+	last := c.last(n0)
+	if gerr != nil || last == nil {
+		return err
+	}
+	gvk.Kind = strings.TrimSuffix(gvk.Kind, "List")
+	gk := gvk.GroupKind()
+	if last.Outcome != "ok" {
+		return c.classify(last, gk, "", err)
+	}
+	if err != nil {
+		return err
+	}
+	view := c.r.view(gk, last.Index)
+	if gk == c12RevGK {
+		// what the cache holds at this moment (the whole kind): the monitors judge the
+		// selection against it
+		c.r.servedRevs = nil
+		if view != nil {
+			for _, m := range view {
+				c.r.servedRevs = append(c.r.servedRevs, &unstructured.Unstructured{Object: deepCopyMap(m)})
+			}
+		} else {
+			c.r.servedRevs = c.Store.OfKind(c12RevGK)
+		}
+		c.r.listedRevs = true
+	}
+	if view == nil {
+		return nil
+	}
+	lo := &client.ListOptions{}
+	lo.ApplyOptions(opts)
+	if gk == c12RevGK {
+		// does the cached list differ from the live revisions it selects?
+		sel := func(u *unstructured.Unstructured) bool {
+			return lo.LabelSelector == nil || lo.LabelSelector.Matches(labels.Set(u.GetLabels()))
+		}
+		var a, b []string
+		for _, m := range view {
+			if u := (&unstructured.Unstructured{Object: m}); sel(u) {
+				a = append(a, c12RevKey(u))
+			}
+		}
+		for _, u := range c.Store.OfKind(c12RevGK) {
+			if sel(u) {
+				b = append(b, c12RevKey(u))
+			}
+		}
+		sort.Strings(a)
+		sort.Strings(b)
+		if strings.Join(a, ",") != strings.Join(b, ",") {
+			c.r.lagging = true
+		}
+	}
+	var items []map[string]any
+	for _, m := range view {
+		u := &unstructured.Unstructured{Object: m}
+		if lo.LabelSelector != nil && !lo.LabelSelector.Matches(labels.Set(u.GetLabels())) {
+			continue
+		}
+		cp := deepCopyMap(m)
+		cp["apiVersion"] = gvk.GroupVersion().String()
+		items = append(items, cp)
+	}
+	if ul, ok := list.(*unstructured.UnstructuredList); ok {
+		ul.Items = nil
+		for _, m := range items {
+			ul.Items = append(ul.Items, unstructured.Unstructured{Object: m})
+		}
+		return nil
+	}
+	objs := make([]kruntime.Object, 0, len(items))
+	for _, m := range items {
+		ro, err := c.Store.Scheme().New(gvk)
+		if err != nil {
+			return err
+		}
+		if err := c.Store.fromMap(m, ro); err != nil {
+			return err
+		}
+		objs = append(objs, ro)
+	}
+	return kmeta.SetList(list, objs)
+}
+
+func (c *c12Client) write(obj client.Object, n0 int, err error) error {
+	last := c.last(n0)
+	if last == nil || last.Outcome != "fail" {
+		return err
+	}
+	gvk, gerr := apiutil.GVKForObject(obj, c.Store.Scheme())
+	if gerr != nil {
+		return err
+	}
+	return c.classify(last, gvk.GroupKind(), obj.GetName(), err)
+}
+
+func (c *c12Client) Create(ctx context.Context, obj client.Object, opts ...client.CreateOption) error {
+	n0 := len(c.Store.Log)
+	return c.write(obj, n0, c.Store.Create(ctx, obj, opts...))
+}
+
+func (c *c12Client) Update(ctx context.Context, obj client.Object, opts ...client.UpdateOption) error {
+	n0 := len(c.Store.Log)
+	return c.write(obj, n0, c.Store.Update(ctx, obj, opts...))
+}
+
+func (c *c12Client) Patch(ctx context.Context, obj client.Object, patch client.Patch, opts ...client.PatchOption) error {
+	n0 := len(c.Store.Log)
+	return c.write(obj, n0, c.Store.Patch(ctx, obj, patch, opts...))
+}
+
 // ---- one run ------------------------------------------------------------------
 
 type c12Snap struct {
@@ -234,6 +505,7 @@ type c12Snap struct {
 type c12Runner struct {
 	s        *c12Scn
 	st       *Store
+	cl       *c12Client
 	mons     []Mon
 	seen     map[string]bool
 	prev     map[string]c12Snap
@@ -241,10 +513,32 @@ type c12Runner struct {
 	captured map[string]bool // comp|ci successfully reconciled
 	compCI   map[string]int  // current content index per composition
 	compUID  map[string]int
-	calls    []int // API calls issued per event (rec / fetch)
-	// controller objects live as long as the process: they are kept across events and
-	// re-created only after a crash, so that state cached inside them is exercised
+	compGen  map[string]int64 // metadata.generation: bumped by spec edits only
+	calls    []int            // API calls issued per event (rec / fetch)
+	// controller objects live as long as the process (Setup builds them once): they are kept
+	// across events and re-created only after a crash, so that state cached inside them is
+	// exercised by the sequence of Compositions / XRs they are handed
+	rc      *composition.Reconciler
+	rec     *c12Recorder
 	fetcher *composite.APIRevisionFetcher
+	// the event being run
+	evNo    int
+	curPlan []c12Fault
+	curEv   *c12Ev
+	snaps   []map[schema.GroupKind][]map[string]any // state at the beginning of every event
+	// what the cached client served during this event
+	servedComp *v1.Composition
+	servedXR   *unstructured.Unstructured
+	servedRevs []*unstructured.Unstructured
+	listedRevs bool
+	// recorded finding D22: a reconcile that read a LAGGING list of the Composition's revisions
+	// (the list the cache served differed from the live revisions) assigns numbers that can
+	// already be in use. lagging: the current rec event read such a list; staleNum: the
+	// revisions whose present number was assigned by such a reconcile (cleared when a reconcile
+	// with a fresh list renumbers them). Only violations of "highest / distinct number" that
+	// involve one of these revisions carry the finding's signature.
+	lagging  bool
+	staleNum map[string]bool
 }
 
 func (r *c12Runner) mon(sig, why string) {
@@ -253,6 +547,82 @@ func (r *c12Runner) mon(sig, why string) {
 	}
 	r.seen[sig] = true
 	r.mons = append(r.mons, Mon{Sig: sig, Why: why})
+}
+
+const c12StaleSig = "C12:number-from-stale-revision-list"
+
+// numSig: the signature of a violation of "highest number / numbers distinct" between the
+// named revisions: the recorded finding iff the number of one of them was assigned by a
+// reconcile that had read a lagging revision list.
+func (r *c12Runner) numSig(sig string, names ...string) string {
+	for _, n := range names {
+		if r.staleNum[n] {
+			return c12StaleSig
+		}
+	}
+	return sig
+}
+
+func c12RevKey(u *unstructured.Unstructured) string {
+	return fmt.Sprintf("%s#%d#%s", u.GetName(), c12Num(u), c12Ctrl(u))
+}
+
+// view: the objects of a kind as the informer cache holds them in the current event (nil = fresh).
+func (r *c12Runner) view(gk schema.GroupKind, call int) []map[string]any {
+	if r.curEv == nil || r.curEv.Lag == nil || (r.curEv.Lag.Until > 0 && call >= r.curEv.Lag.Until) {
+		return nil
+	}
+	d := 0
+	switch gk {
+	case c12RevGK:
+		d = r.curEv.Lag.Revs
+	case c12CompGK:
+		d = r.curEv.Lag.Comps
+	case c12XRGVK.GroupKind():
+		d = r.curEv.Lag.XRs
+	}
+	if d <= 0 {
+		return nil
+	}
+	i := r.evNo - (d - 1)
+	if i < 0 {
+		i = 0
+	}
+	if i >= len(r.snaps) {
+		return nil
+	}
+	v := r.snaps[i][gk]
+	if v == nil {
+		v = []map[string]any{}
+	}
+	return v
+}
+
+func (r *c12Runner) snapshot() {
+	m := map[schema.GroupKind][]map[string]any{}
+	for _, gk := range []schema.GroupKind{c12RevGK, c12CompGK, c12XRGVK.GroupKind()} {
+		m[gk] = []map[string]any{}
+		for _, u := range r.st.OfKind(gk) {
+			m[gk] = append(m[gk], u.Object)
+		}
+	}
+	r.snaps = append(r.snaps, m)
+}
+
+// served records the first Composition / XR the cached client handed out in this event.
+func (r *c12Runner) served(gk schema.GroupKind, obj client.Object) {
+	switch gk {
+	case c12CompGK:
+		if c, ok := obj.(*v1.Composition); ok && r.servedComp == nil {
+			r.servedComp = c.DeepCopy()
+		}
+	case c12XRGVK.GroupKind():
+		if r.servedXR == nil {
+			if u, ok := obj.(kruntime.Unstructured); ok {
+				r.servedXR = &unstructured.Unstructured{Object: deepCopyMap(u.UnstructuredContent())}
+			}
+		}
+	}
 }
 
 func c12Frozen(u *unstructured.Unstructured) string {
@@ -286,8 +656,25 @@ func c12Ctrl(u *unstructured.Unstructured) string {
 // step monitor: compares the revisions now in the store with the previous instant.
 func (r *c12Runner) checkInstant(where string) {
 	cur := map[string]c12Snap{}
-	for _, u := range r.st.OfKind(c12RevGK) {
+	byNum := map[string]string{}
+	revs := r.st.OfKind(c12RevGK)
+	for _, u := range revs {
 		cur[u.GetName()] = c12Snap{num: c12Num(u), frozen: c12Frozen(u)}
+		// a number assigned (revision created / renumbered) by the reconcile that is running
+		if p, ok := r.prev[u.GetName()]; r.curEv != nil && r.curEv.Op == "rec" && (!ok || p.num != c12Num(u)) {
+			if r.lagging {
+				r.staleNum[u.GetName()] = true
+			} else {
+				delete(r.staleNum, u.GetName())
+			}
+		}
+	}
+	for _, u := range revs {
+		k := fmt.Sprintf("%s#%d", u.GetLabels()[v1.LabelCompositionName], c12Num(u))
+		if other, dup := byNum[k]; dup {
+			r.mon(r.numSig("C12:duplicate-number", other, u.GetName()), fmt.Sprintf("%s: revisions %s and %s of one Composition both carry number %d", where, other, u.GetName(), c12Num(u)))
+		}
+		byNum[k] = u.GetName()
 	}
 	for name, p := range r.prev {
 		c, ok := cur[name]
@@ -369,8 +756,11 @@ func (r *c12Runner) checkCaptured(where string) {
 	}
 }
 
-func (r *c12Runner) state(res string) c12OStep {
-	o := c12OStep{Res: res, Revs: []c12ORev{}, XRefs: []string{}}
+func (r *c12Runner) state(res string, enq []string) c12OStep {
+	o := c12OStep{Res: res, Revs: []c12ORev{}, XRefs: []string{}, Enq: []string{}}
+	if len(enq) > 0 {
+		o.Enq = enq
+	}
 	for _, u := range r.st.OfKind(c12RevGK) {
 		spec, _ := u.Object["spec"].(map[string]any)
 		idx, ok := r.specKeys[c12SpecJSON(spec)]
@@ -395,8 +785,6 @@ func c12PlanFn(p []c12Fault) func(CallInfo) Outcome {
 		for _, f := range p {
 			if f.K == c.Index {
 				switch f.O {
-				case "fail":
-					return Fail
 				case "conflict":
 					return Conflict
 				case "crashBefore":
@@ -404,6 +792,7 @@ func c12PlanFn(p []c12Fault) func(CallInfo) Outcome {
 				case "crashAfter":
 					return CrashAfter
 				}
+				return Fail // "fail" and every error class: not applied, the caller sees an error
 			}
 		}
 		return OK
@@ -424,6 +813,7 @@ func (r *c12Runner) setOwner(name string, uid int) {
 
 func (r *c12Runner) putComp(name string, uid int, ci int, deleting bool) {
 	comp := c12Comp(name, uid, r.s.Contents[ci])
+	comp.Generation = r.compGen[name]
 	if deleting {
 		now := metav1.Unix(1700000000, 0)
 		comp.DeletionTimestamp = &now
@@ -433,22 +823,128 @@ func (r *c12Runner) putComp(name string, uid int, ci int, deleting bool) {
 	r.st.Seed(comp)
 }
 
-func (r *c12Runner) reconcile(e c12Ev) string {
+// applyEnv: one action of the environment (a user, a backup/restore tool, another
+// controller), between events or between two API calls of a reconcile / fetch.
+func (r *c12Runner) applyEnv(e c12Ev) {
+	s := r.s
+	switch e.Op {
+	case "edit":
+		if old, ok := r.compCI[e.Comp]; ok && e.CI >= 0 && e.CI < len(s.Contents) {
+			deleting := false
+			if u := r.st.Peek(c12CompGK, "", e.Comp); u != nil && u.GetDeletionTimestamp() != nil {
+				deleting = true
+			}
+			if s.Contents[old].Spec != s.Contents[e.CI].Spec {
+				r.compGen[e.Comp]++ // label / annotation edits do not touch metadata.generation
+			}
+			r.putComp(e.Comp, r.compUID[e.Comp], e.CI, deleting)
+			r.compCI[e.Comp] = e.CI
+		}
+	case "restore":
+		if ci, ok := r.compCI[e.Comp]; ok {
+			r.compUID[e.Comp] = e.UID
+			r.compGen[e.Comp] = 1
+			r.putComp(e.Comp, e.UID, ci, false)
+			if !e.Keep {
+				for _, u := range r.st.OfKind(c12RevGK) {
+					if u.GetLabels()[v1.LabelCompositionName] == e.Comp {
+						r.setOwner(u.GetName(), 0)
+					}
+				}
+			}
+		}
+	case "deleting":
+		if ci, ok := r.compCI[e.Comp]; ok {
+			r.putComp(e.Comp, r.compUID[e.Comp], ci, true)
+		}
+	case "strip":
+		for _, n := range e.Names {
+			r.setOwner(n, 0)
+		}
+	case "foreign":
+		for _, n := range e.Names {
+			r.setOwner(n, c12ForeignUID)
+		}
+	case "setxr":
+		r.st.Mutate(c12XRGVK.GroupKind(), "", e.XR, func(u *unstructured.Unstructured) {
+			xr := &ucomposite.Unstructured{Unstructured: *u}
+			if e.Policy == "" {
+				unstructured.RemoveNestedField(xr.Object, "spec", "compositionUpdatePolicy")
+			} else {
+				p := xpv1.UpdatePolicy(e.Policy)
+				xr.SetCompositionUpdatePolicy(&p)
+			}
+			if e.Sel == nil {
+				unstructured.RemoveNestedField(xr.Object, "spec", "compositionRevisionSelector")
+			} else {
+				ml := map[string]any{}
+				for k, v := range *e.Sel {
+					ml[k] = v
+				}
+				_ = unstructured.SetNestedMap(xr.Object, ml, "spec", "compositionRevisionSelector", "matchLabels")
+			}
+			switch e.Pin {
+			case "":
+			case "-":
+				unstructured.RemoveNestedField(xr.Object, "spec", "compositionRevisionRef")
+			default:
+				xr.SetCompositionRevisionReference(&corev1.LocalObjectReference{Name: e.Pin})
+			}
+			u.Object = xr.Object
+		})
+	}
+}
+
+// begin prepares the store and the per-event bookkeeping for a rec / fetch event.
+func (r *c12Runner) begin(e *c12Ev) {
 	r.st.Revive()
 	r.st.Plan = c12PlanFn(e.Plan)
-	rec := &c12Recorder{}
-	rc := composition.NewReconciler(&fake.Manager{Client: r.st}, composition.WithRecorder(rec))
+	r.curPlan, r.curEv = e.Plan, e
+	r.servedComp, r.servedXR, r.servedRevs, r.listedRevs, r.lagging = nil, nil, nil, false, false
+	if r.rc == nil {
+		// one process: the revision controller and the XR controllers share it (cmd/crossplane core)
+		r.rec = &c12Recorder{}
+		r.rc = composition.NewReconciler(&fake.Manager{Client: r.cl}, composition.WithRecorder(r.rec))
+		r.fetcher = composite.NewAPIRevisionFetcher(resource.ClientApplicator{Client: r.cl, Applicator: resource.NewAPIPatchingApplicator(r.cl)})
+	}
+	r.rec.created = false
+}
+
+func (r *c12Runner) end() (crashed bool) {
+	r.calls = append(r.calls, r.st.Calls)
+	crashed = r.st.Crashed()
+	r.st.Revive()
+	r.curEv, r.curPlan = nil, nil
+	if crashed {
+		r.rc, r.rec, r.fetcher = nil, nil, nil // process restart
+	}
+	return crashed
+}
+
+func c12HasEnv(e *c12Ev) bool {
+	for _, a := range e.Env {
+		if len(a.Acts) > 0 {
+			return true
+		}
+	}
+	return false
+}
+
+func c12Lagged(e *c12Ev) bool { return e.Lag != nil && (e.Lag.Revs > 0 || e.Lag.Comps > 0) }
+
+func (r *c12Runner) reconcile(e *c12Ev) string {
+	r.begin(e)
+	rc, rec := r.rc, r.rec
 	var res reconcile.Result
 	var err error
-	if p := Guard(func() {
+	p := Guard(func() {
 		res, err = rc.Reconcile(context.Background(), reconcile.Request{NamespacedName: types.NamespacedName{Name: e.Comp}})
-	}); p != "" {
+	})
+	crashed := r.end()
+	if p != "" {
 		r.mon("C12:panic", p)
 		return "panic"
 	}
-	r.calls = append(r.calls, r.st.Calls)
-	crashed := r.st.Crashed()
-	r.st.Revive()
 	switch {
 	case crashed:
 		return "crashed"
@@ -462,15 +958,51 @@ func (r *c12Runner) reconcile(e c12Ev) string {
 	return "ok"
 }
 
-// after a successful reconcile: the revision of the current content exists, is
-// controlled by the Composition, and has the strictly highest number.
-func (r *c12Runner) checkCurrent(e c12Ev, where string) {
+// mustSucceed: the reconcile about to run meets no fault, no interference and no cache lag,
+// and no revision labelled with its Composition is controlled by somebody else - then it has
+// to return without error (theorem reconcile_succeeds_without_faults).
+func (r *c12Runner) mustSucceed(e *c12Ev) bool {
+	if len(e.Plan) > 0 || c12HasEnv(e) || e.Lag != nil {
+		return false
+	}
 	cu := r.st.Peek(c12CompGK, "", e.Comp)
-	if cu == nil || cu.GetDeletionTimestamp() != nil {
+	if cu == nil {
+		return false
+	}
+	for _, u := range r.st.OfKind(c12RevGK) {
+		if u.GetLabels()[v1.LabelCompositionName] != e.Comp {
+			continue
+		}
+		if c := c12Ctrl(u); c != "none" && c != string(cu.GetUID()) {
+			return false
+		}
+	}
+	return true
+}
+
+// c12ContentIndex: which of the scenario's contents a Composition object carries (-1: none).
+func (r *c12Runner) contentIndex(c *v1.Composition) int {
+	for i, ct := range r.s.Contents {
+		w := c12Comp(c.GetName(), 1, ct)
+		if reflect.DeepEqual(w.Spec, c.Spec) && c12LabelsEq(w.Labels, c.Labels) && c12LabelsEq(w.Annotations, c.Annotations) {
+			return i
+		}
+	}
+	return -1
+}
+
+// after a successful reconcile: the revision of the content the reconcile read exists,
+// is controlled by the Composition, and has the strictly highest number.
+func (r *c12Runner) checkCurrent(e *c12Ev, where string) {
+	sc := r.servedComp
+	if sc == nil || sc.GetName() != e.Comp || sc.GetDeletionTimestamp() != nil {
 		return
 	}
-	ci := r.compCI[e.Comp]
+	ci := r.contentIndex(sc)
 	t := r.tab(e.Comp, ci)
+	if t == nil {
+		return
+	}
 	var cur *unstructured.Unstructured
 	revs := r.st.OfKind(c12RevGK)
 	for _, u := range revs {
@@ -479,11 +1011,13 @@ func (r *c12Runner) checkCurrent(e c12Ev, where string) {
 		}
 	}
 	if cur == nil {
-		r.mon("C12:current-missing", fmt.Sprintf("%s: no revision for the current content #%d of %s after a successful reconcile", where, ci, e.Comp))
+		r.mon("C12:current-missing", fmt.Sprintf("%s: no revision for the content #%d of %s the reconcile read although it returned without error", where, ci, e.Comp))
 		return
 	}
 	r.captured[fmt.Sprintf("%d|%s", ci, e.Comp)] = true
-	if c12Ctrl(cur) != string(cu.GetUID()) {
+	// who controls it can be changed by the environment at any moment; without interference
+	// and cache lag it is the Composition
+	if !c12HasEnv(e) && !c12Lagged(e) && c12Ctrl(cur) != string(sc.GetUID()) {
 		r.mon("C12:current-not-controlled", fmt.Sprintf("%s: current revision %s is not controlled by %s", where, cur.GetName(), e.Comp))
 	}
 	for _, u := range revs {
@@ -491,56 +1025,118 @@ func (r *c12Runner) checkCurrent(e c12Ev, where string) {
 			continue
 		}
 		if c12Num(u) >= c12Num(cur) {
-			r.mon("C12:current-not-highest", fmt.Sprintf("%s: current revision %s has number %d but %s has %d", where, cur.GetName(), c12Num(cur), u.GetName(), c12Num(u)))
+			sig := r.numSig("C12:current-not-highest", cur.GetName(), u.GetName())
+			if r.lagging {
+				sig = c12StaleSig // this reconcile judged "highest" on a lagging list
+			}
+			r.mon(sig, fmt.Sprintf("%s: current revision %s has number %d but %s has %d", where, cur.GetName(), c12Num(cur), u.GetName(), c12Num(u)))
 		}
 	}
 }
 
-func (r *c12Runner) fetch(e c12Ev, where string) string {
-	before := r.st.Peek(c12XRGVK.GroupKind(), "", e.XR)
-	r.st.Revive()
-	r.st.Plan = c12PlanFn(e.Plan)
-	if r.fetcher == nil {
-		r.fetcher = composite.NewAPIRevisionFetcher(resource.ClientApplicator{Client: r.st, Applicator: resource.NewAPIPatchingApplicator(r.st)})
-	}
-	f := r.fetcher
-	defer func() {
-		if r.st.Crashed() {
-			r.fetcher = nil // process restart
+type c12Queue struct {
+	workqueue.TypedRateLimitingInterface[reconcile.Request]
+	added []string
+}
+
+func (q *c12Queue) Add(r reconcile.Request) { q.added = append(q.added, r.Name) }
+
+// enqueue runs the real revision-created handler of the XR controller for every revision the
+// reconcile just created and returns the XRs it enqueued (sorted). Monitor: exactly the XRs
+// that are not Manual and reference the revision's Composition are enqueued - that is what
+// lets an Automatic XR move to the new revision.
+func (r *c12Runner) enqueue(n0 int, where string) []string {
+	var out []string
+	for _, c := range r.st.Log[n0:] {
+		if c.Verb != "create" || !c.Applied || c.GK != gkString(c12RevGK) {
+			continue
 		}
-	}()
+		u := r.st.Peek(c12RevGK, "", c.Name)
+		if u == nil {
+			continue
+		}
+		rev := &v1.CompositionRevision{}
+		if err := kruntime.DefaultUnstructuredConverter.FromUnstructured(u.Object, rev); err != nil {
+			continue
+		}
+		q := &c12Queue{}
+		h := definition.EnqueueForCompositionRevision(resource.CompositeKind(c12XRGVK), r.st, logging.NewNopLogger())
+		if p := Guard(func() { h.CreateFunc(context.Background(), kevent.CreateEvent{Object: rev}, q) }); p != "" {
+			r.mon("C12:panic", p)
+		}
+		r.st.Revive()
+		got := map[string]bool{}
+		for _, n := range q.added {
+			got[n] = true
+		}
+		comp := u.GetLabels()[v1.LabelCompositionName]
+		for _, x := range r.st.OfKind(c12XRGVK.GroupKind()) {
+			pol, _, _ := unstructured.NestedString(x.Object, "spec", "compositionUpdatePolicy")
+			ref, _, _ := unstructured.NestedString(x.Object, "spec", "compositionRef", "name")
+			want := pol != "Manual" && ref == comp && comp != ""
+			if want && !got[x.GetName()] {
+				r.mon("C12:automatic-xr-not-enqueued", fmt.Sprintf("%s: revision %s of %s was created but XR %s (policy %q) was not enqueued", where, c.Name, comp, x.GetName(), pol))
+			}
+			if !want && got[x.GetName()] {
+				r.mon("C12:unrelated-xr-enqueued", fmt.Sprintf("%s: revision %s of %s was created and XR %s (policy %q, composition %s) was enqueued", where, c.Name, comp, x.GetName(), pol, ref))
+			}
+		}
+		for n := range got {
+			out = append(out, n)
+		}
+	}
+	sort.Strings(out)
+	return out
+}
+
+func (r *c12Runner) fetch(e *c12Ev, where string) string {
+	r.begin(e)
+	f := r.fetcher
+	n0 := len(r.st.Log)
 	var rev *v1.CompositionRevision
 	var err error
-	if p := Guard(func() {
+	p := Guard(func() {
+		// the XR reconciler reads the XR through the cached client, then hands it to the fetcher
 		xr := ucomposite.New(ucomposite.WithGroupVersionKind(c12XRGVK))
-		if err = r.st.Get(context.Background(), types.NamespacedName{Name: e.XR}, xr); err != nil {
+		if err = r.cl.Get(context.Background(), types.NamespacedName{Name: e.XR}, xr); err != nil {
 			return
 		}
 		rev, err = f.Fetch(context.Background(), xr)
-	}); p != "" {
+	})
+	sx, sc, srevs, listed := r.servedXR, r.servedComp, r.servedRevs, r.listedRevs
+	log := append([]CallInfo{}, r.st.Log[n0:]...)
+	crashed := r.end()
+	if p != "" {
 		r.mon("C12:panic", p)
 		return "panic"
 	}
-	r.calls = append(r.calls, r.st.Calls)
-	crashed := r.st.Crashed()
-	r.st.Revive()
 	after := r.st.Peek(c12XRGVK.GroupKind(), "", e.XR)
-	if before == nil || after == nil {
-		if err == nil {
+	if sx == nil || after == nil {
+		if err == nil && !crashed {
 			return "?"
+		}
+		if crashed {
+			return "crashed"
 		}
 		return "err"
 	}
-	pol, _, _ := unstructured.NestedString(before.Object, "spec", "compositionUpdatePolicy")
-	refB, _, _ := unstructured.NestedString(before.Object, "spec", "compositionRevisionRef", "name")
+	// the XR as the fetch saw it
+	pol, _, _ := unstructured.NestedString(sx.Object, "spec", "compositionUpdatePolicy")
+	refB, _, _ := unstructured.NestedString(sx.Object, "spec", "compositionRevisionRef", "name")
 	refA, _, _ := unstructured.NestedString(after.Object, "spec", "compositionRevisionRef", "name")
-	compName, _, _ := unstructured.NestedString(before.Object, "spec", "compositionRef", "name")
+	compName, _, _ := unstructured.NestedString(sx.Object, "spec", "compositionRef", "name")
 	ok := err == nil && !crashed && rev != nil
+	wroteXR := false
+	for _, c := range log {
+		if c.IsWrite() && c.Applied && c.GK == gkString(c12XRGVK.GroupKind()) {
+			wroteXR = true
+		}
+	}
 
 	if pol == "Manual" && refB != "" {
-		// Manual pins: the XR keeps the revision it references.
-		if refA != refB {
-			r.mon("C12:manual-moved", fmt.Sprintf("%s: Manual XR %s moved from %s to %s", where, e.XR, refB, refA))
+		// Manual pins: the fetch never writes the XR and hands over the revision it references.
+		if wroteXR {
+			r.mon("C12:manual-moved", fmt.Sprintf("%s: Manual XR %s referencing %s was written by the fetch (now %q)", where, e.XR, refB, refA))
 		}
 		if ok && rev.GetName() != refB {
 			r.mon("C12:manual-moved", fmt.Sprintf("%s: Manual XR %s references %s but was handed %s", where, e.XR, refB, rev.GetName()))
@@ -548,21 +1144,21 @@ func (r *c12Runner) fetch(e c12Ev, where string) string {
 	} else {
 		// Automatic (or nothing selected yet): the highest-numbered revision
 		// controlled by the Composition, restricted by the selector.
-		if refA != refB && (!ok && !crashed) {
+		if wroteXR && !ok && !crashed {
 			r.mon("C12:ref-changed-on-error", fmt.Sprintf("%s: XR %s ref %s -> %s although the fetch failed", where, e.XR, refB, refA))
 		}
 		if ok {
 			var sel map[string]string
 			if pol == "Automatic" {
-				if m, found, _ := unstructured.NestedStringMap(before.Object, "spec", "compositionRevisionSelector", "matchLabels"); found {
+				if m, found, _ := unstructured.NestedStringMap(sx.Object, "spec", "compositionRevisionSelector", "matchLabels"); found {
 					sel = m
 				}
 			}
-			cu := r.st.Peek(c12CompGK, "", compName)
+			// judged against what the informer cache held when the fetch listed the revisions
 			var best *unstructured.Unstructured
-			if cu != nil {
-				for _, u := range r.st.OfKind(c12RevGK) {
-					if u.GetLabels()[v1.LabelCompositionName] != compName || c12Ctrl(u) != string(cu.GetUID()) {
+			if sc != nil && listed && sc.GetName() == compName {
+				for _, u := range srevs {
+					if u.GetLabels()[v1.LabelCompositionName] != compName || c12Ctrl(u) != string(sc.GetUID()) {
 						continue
 					}
 					match := true
@@ -585,7 +1181,7 @@ func (r *c12Runner) fetch(e c12Ev, where string) string {
 			case c12Num(best) != rev.Spec.Revision || (best.GetName() != rev.GetName()):
 				r.mon("C12:automatic-not-highest", fmt.Sprintf("%s: XR %s was handed %s (#%d), highest controlled matching revision is %s (#%d)", where, e.XR, rev.GetName(), rev.Spec.Revision, best.GetName(), c12Num(best)))
 			}
-			if refA != rev.GetName() {
+			if refA != rev.GetName() && refB != rev.GetName() {
 				r.mon("C12:automatic-ref-not-updated", fmt.Sprintf("%s: XR %s was handed %s but references %q", where, e.XR, rev.GetName(), refA))
 			}
 		}
@@ -604,7 +1200,8 @@ func c12Run(s *c12Scn) (c12Obs, []Mon, []int) {
 	scheme := kruntime.NewScheme()
 	_ = v1.AddToScheme(scheme)
 	r := &c12Runner{s: s, st: NewStore(scheme), seen: map[string]bool{}, prev: map[string]c12Snap{}, specKeys: map[string]int{},
-		captured: map[string]bool{}, compCI: map[string]int{}, compUID: map[string]int{}}
+		captured: map[string]bool{}, compCI: map[string]int{}, compUID: map[string]int{}, compGen: map[string]int64{}, staleNum: map[string]bool{}}
+	r.cl = &c12Client{Store: r.st, r: r}
 	for _, c := range s.Contents {
 		r.specKeys[c12SpecKey(c.Spec)] = c.Spec
 	}
@@ -612,6 +1209,7 @@ func c12Run(s *c12Scn) (c12Obs, []Mon, []int) {
 		if c.CI < 0 || c.CI >= len(s.Contents) {
 			continue
 		}
+		r.compGen[c.Name] = 1
 		r.putComp(c.Name, c.UID, c.CI, false)
 		r.compCI[c.Name], r.compUID[c.Name] = c.CI, c.UID
 	}
@@ -621,87 +1219,51 @@ func c12Run(s *c12Scn) (c12Obs, []Mon, []int) {
 		xr.SetCompositionReference(&corev1.ObjectReference{Name: x.Comp})
 		r.st.Seed(xr)
 	}
-	evNo := 0
+	r.st.Before = func(c CallInfo) {
+		if r.curEv == nil {
+			return
+		}
+		for _, ea := range r.curEv.Env {
+			if ea.Before == c.Index {
+				for _, a := range ea.Acts {
+					r.applyEnv(a)
+				}
+			}
+		}
+	}
 	r.st.After = func(c CallInfo) {
 		if c.IsWrite() {
-			r.checkInstant(fmt.Sprintf("event %d call %d (%s %s)", evNo, c.Index, c.Verb, c.Name))
+			r.checkInstant(fmt.Sprintf("event %d call %d (%s %s)", r.evNo, c.Index, c.Verb, c.Name))
 		}
 	}
 	obs := c12Obs{Steps: []c12OStep{}}
-	for i, e := range s.Events {
-		evNo = i
+	for i := range s.Events {
+		e := &s.Events[i]
+		r.evNo = i
+		r.snapshot()
 		where := fmt.Sprintf("event %d (%s)", i, e.Op)
 		res := ""
+		var enq []string
 		switch e.Op {
-		case "edit":
-			if _, ok := r.compCI[e.Comp]; ok && e.CI >= 0 && e.CI < len(s.Contents) {
-				deleting := false
-				if u := r.st.Peek(c12CompGK, "", e.Comp); u != nil && u.GetDeletionTimestamp() != nil {
-					deleting = true
-				}
-				r.putComp(e.Comp, r.compUID[e.Comp], e.CI, deleting)
-				r.compCI[e.Comp] = e.CI
-			}
-		case "restore":
-			if ci, ok := r.compCI[e.Comp]; ok {
-				r.compUID[e.Comp] = e.UID
-				r.putComp(e.Comp, e.UID, ci, false)
-				for _, u := range r.st.OfKind(c12RevGK) {
-					if u.GetLabels()[v1.LabelCompositionName] == e.Comp {
-						r.setOwner(u.GetName(), 0)
-					}
-				}
-			}
-		case "deleting":
-			if ci, ok := r.compCI[e.Comp]; ok {
-				r.putComp(e.Comp, r.compUID[e.Comp], ci, true)
-			}
-		case "strip":
-			for _, n := range e.Names {
-				r.setOwner(n, 0)
-			}
-		case "foreign":
-			for _, n := range e.Names {
-				r.setOwner(n, c12ForeignUID)
-			}
-		case "setxr":
-			r.st.Mutate(c12XRGVK.GroupKind(), "", e.XR, func(u *unstructured.Unstructured) {
-				xr := &ucomposite.Unstructured{Unstructured: *u}
-				if e.Policy == "" {
-					unstructured.RemoveNestedField(xr.Object, "spec", "compositionUpdatePolicy")
-				} else {
-					p := xpv1.UpdatePolicy(e.Policy)
-					xr.SetCompositionUpdatePolicy(&p)
-				}
-				if e.Sel == nil {
-					unstructured.RemoveNestedField(xr.Object, "spec", "compositionRevisionSelector")
-				} else {
-					ml := map[string]any{}
-					for k, v := range *e.Sel {
-						ml[k] = v
-					}
-					_ = unstructured.SetNestedMap(xr.Object, ml, "spec", "compositionRevisionSelector", "matchLabels")
-				}
-				switch e.Pin {
-				case "":
-				case "-":
-					unstructured.RemoveNestedField(xr.Object, "spec", "compositionRevisionRef")
-				default:
-					xr.SetCompositionRevisionReference(&corev1.LocalObjectReference{Name: e.Pin})
-				}
-				u.Object = xr.Object
-			})
 		case "rec":
+			n0 := len(r.st.Log)
+			mustSucceed := r.mustSucceed(e)
 			res = r.reconcile(e)
 			if res == "ok" || res == "created" {
 				r.checkCurrent(e, where)
+			} else if mustSucceed {
+				// progress: without it an edited content is never captured by a revision
+				r.mon("C12:fault-free-reconcile-failed", fmt.Sprintf("%s: reconcile of %s met no fault, no interference and a fresh cache, no revision of it is controlled by somebody else, and it returned %q", where, e.Comp, res))
 			}
+			enq = r.enqueue(n0, where)
 		case "fetch":
 			res = r.fetch(e, where)
+		default:
+			r.applyEnv(*e)
 		}
 		r.checkInstant(where)
 		r.checkCaptured(where)
-		obs.Steps = append(obs.Steps, r.state(res))
+		obs.Steps = append(obs.Steps, r.state(res, enq))
 	}
 	return obs, r.mons, r.calls
 }
@@ -709,6 +1271,10 @@ func c12Run(s *c12Scn) (c12Obs, []Mon, []int) {
 // ---- generator ----------------------------------------------------------------
 
 var c12Outcomes = []string{"fail", "conflict", "crashBefore", "crashAfter"}
+
+// outcomes a sweep tries at every call index: the four of the shared fault model and the
+// error classes the code could tell apart
+var c12SweepOutcomes = []string{"fail", "conflict", "crashBefore", "crashAfter", "notFound", "alreadyExists", "invalid"}
 
 func c12GenPlan(r *Rng, max int) []c12Fault {
 	if r.Chance(1, 2) {
@@ -720,16 +1286,22 @@ func c12GenPlan(r *Rng, max int) []c12Fault {
 	}
 	var p []c12Fault
 	for i := 0; i < n; i++ {
-		p = append(p, c12Fault{K: r.Intn(max), O: Pick(r, c12Outcomes)})
+		o := Pick(r, c12Outcomes)
+		if r.Chance(1, 3) {
+			o = Pick(r, c12Classes)
+		}
+		p = append(p, c12Fault{K: r.Intn(max), O: o})
 	}
 	return p
 }
 
+var c12CompNames = []string{"comp-a", "comp-a-b", "comp-b"} // one name is a dash-prefix of another
+
 func c12Gen(r *Rng) c12Scn {
 	s := c12Scn{}
-	// 3..4 contents drawn from 3 specs x 3 label sets x 2 annotation sets
-	labelSets := []map[string]string{{}, {"channel": "dev"}, {"channel": "staging"}, {"channel": "dev", "tier": "gold"}}
-	nc := r.Range(3, 4)
+	// 3..5 contents drawn from 3 specs x 5 label sets x 2 annotation sets
+	labelSets := []map[string]string{{}, {"channel": "dev"}, {"channel": "staging"}, {"channel": "dev", "tier": "gold"}, {"channel": "development"}}
+	nc := r.Range(3, 5)
 	seen := map[string]bool{}
 	for len(s.Contents) < nc {
 		c := c12Content{Labels: Pick(r, labelSets), Annos: r.Intn(2), Spec: r.Intn(3)}
@@ -740,14 +1312,25 @@ func c12Gen(r *Rng) c12Scn {
 		seen[k] = true
 		s.Contents = append(s.Contents, c)
 	}
-	compNames := []string{"comp-a"}
-	if r.Chance(1, 3) {
-		compNames = append(compNames, "comp-b")
+	ncomp := 1
+	switch x := r.Intn(10); {
+	case x >= 8:
+		ncomp = 3
+	case x >= 5:
+		ncomp = 2
 	}
+	var compNames []string
+	for _, i := range r.Perm(len(c12CompNames))[:ncomp] {
+		compNames = append(compNames, c12CompNames[i])
+	}
+	sort.Strings(compNames)
 	for i, n := range compNames {
 		s.Comps = append(s.Comps, c12CompInit{Name: n, UID: i + 1, CI: r.Intn(nc)})
 	}
-	s.XRs = []c12XRInit{{Name: "xr-0", Comp: "comp-a"}, {Name: "xr-1", Comp: Pick(r, compNames)}}
+	s.XRs = []c12XRInit{{Name: "xr-0", Comp: compNames[0]}, {Name: "xr-1", Comp: Pick(r, compNames)}}
+	if r.Chance(1, 3) {
+		s.XRs = append(s.XRs, c12XRInit{Name: "xr-2", Comp: Pick(r, compNames)})
+	}
 	c12Prepare(&s)
 	namesOf := func(comp string) []string {
 		var out []string
@@ -759,7 +1342,7 @@ func c12Gen(r *Rng) c12Scn {
 		return out
 	}
 	nextUID := 10
-	sels := []map[string]string{{}, {"channel": "dev"}, {"channel": "staging"}, {"channel": "prod"}, {"tier": "gold"}}
+	sels := []map[string]string{{}, {"channel": "dev"}, {"channel": "staging"}, {"channel": "prod"}, {"tier": "gold"}, {"channel": "dev", "tier": "gold"}, {"channel": "development"}}
 	genSetXR := func() c12Ev {
 		e := c12Ev{Op: "setxr", XR: Pick(r, s.XRs).Name, Policy: Pick(r, []string{"", "Manual", "Manual", "Automatic", "Automatic"})}
 		if r.Chance(1, 2) {
@@ -777,6 +1360,78 @@ func c12Gen(r *Rng) c12Scn {
 		}
 		return e
 	}
+	genStrip := func(comp string) c12Ev {
+		all := namesOf(comp)
+		var pick []string
+		if r.Chance(1, 2) {
+			pick = all
+		} else {
+			for _, nm := range all {
+				if r.Bool() {
+					pick = append(pick, nm)
+				}
+			}
+		}
+		return c12Ev{Op: "strip", Comp: comp, Names: pick}
+	}
+	genRestore := func(comp string) c12Ev {
+		e := c12Ev{Op: "restore", Comp: comp, UID: nextUID, Keep: r.Chance(1, 4)}
+		nextUID++
+		return e
+	}
+	// one action of the environment between two API calls of a reconcile / fetch
+	genAct := func(comp string) c12Ev {
+		switch x := r.Intn(100); {
+		case x < 30:
+			return c12Ev{Op: "edit", Comp: comp, CI: r.Intn(nc)}
+		case x < 55:
+			return genStrip(comp)
+		case x < 70:
+			return genRestore(comp)
+		case x < 80:
+			return c12Ev{Op: "foreign", Comp: comp, Names: []string{Pick(r, namesOf(comp))}}
+		case x < 84:
+			return c12Ev{Op: "deleting", Comp: comp}
+		}
+		return genSetXR()
+	}
+	// interference and cache lag of one rec / fetch event
+	decorate := func(e c12Ev, comp string, calls int) c12Ev {
+		if r.Chance(1, 7) {
+			n := 1
+			if r.Chance(1, 4) {
+				n = 2
+			}
+			for i := 0; i < n; i++ {
+				e.Env = append(e.Env, c12EnvAt{Before: r.Intn(calls), Acts: []c12Ev{genAct(comp)}})
+			}
+		}
+		if r.Chance(1, 7) {
+			// how far the cache is behind: mostly one or two events, sometimes far enough to
+			// miss several reconciles (a revision renumbered more than once meanwhile)
+			depth := func() int { return Pick(r, []int{1, 2, 2, 3, 3, 4, 5, 6, 8}) }
+			l := &c12Lag{}
+			switch r.Intn(4) {
+			case 0:
+				l.Comps = depth()
+			case 1:
+				l.Revs, l.Comps = depth(), depth()
+			default:
+				l.Revs = depth()
+			}
+			if e.Op == "fetch" && r.Chance(1, 3) {
+				l.XRs = depth()
+			}
+			if r.Chance(1, 3) {
+				l.Until = r.Range(1, 4)
+			}
+			e.Lag = l
+		}
+		return e
+	}
+	genRec := func(comp string) c12Ev {
+		return decorate(c12Ev{Op: "rec", Comp: comp, Plan: c12GenPlan(r, 9)}, comp, 6)
+	}
 	if r.Chance(2, 3) {
 		s.Events = append(s.Events, genSetXR())
 	}
@@ -785,29 +1440,32 @@ func c12Gen(r *Rng) c12Scn {
 		comp := Pick(r, compNames)
 		x := r.Intn(100)
 		switch {
-		case x < 24:
+		case x < 22:
 			s.Events = append(s.Events, c12Ev{Op: "edit", Comp: comp, CI: r.Intn(nc)})
 			if r.Chance(2, 3) {
-				s.Events = append(s.Events, c12Ev{Op: "rec", Comp: comp, Plan: c12GenPlan(r, 9)})
+				s.Events = append(s.Events, genRec(comp))
 			}
+		case x < 25:
+			// two edits in quick succession: the second reconcile starts before the informer
+			// cache has seen what the first one wrote
+			s.Events = append(s.Events, c12Ev{Op: "edit", Comp: comp, CI: r.Intn(nc)}, c12Ev{Op: "rec", Comp: comp},
+				c12Ev{Op: "edit", Comp: comp, CI: r.Intn(nc)}, c12Ev{Op: "rec", Comp: comp, Lag: &c12Lag{Revs: r.Range(2, 3)}})
+		case x < 27:
+			// flip-flop between two or three contents, every edit reconciled (each revert
+			// renumbers), then a reconcile whose cache is several reconciles behind
+			cs := []int{r.Intn(nc), r.Intn(nc), r.Intn(nc)}
+			m := r.Range(3, 5)
+			for j := 0; j < m; j++ {
+				s.Events = append(s.Events, c12Ev{Op: "edit", Comp: comp, CI: cs[j%len(cs)]}, c12Ev{Op: "rec", Comp: comp})
+			}
+			s.Events = append(s.Events, c12Ev{Op: "edit", Comp: comp, CI: Pick(r, cs)},
+				c12Ev{Op: "rec", Comp: comp, Lag: &c12Lag{Revs: r.Range(3, 2*m), Until: Pick(r, []int{0, 0, 2, 3})}})
 		case x < 58:
-			s.Events = append(s.Events, c12Ev{Op: "rec", Comp: comp, Plan: c12GenPlan(r, 9)})
+			s.Events = append(s.Events, genRec(comp))
 		case x < 66:
-			all := namesOf(comp)
-			var pick []string
-			if r.Chance(1, 2) {
-				pick = all
-			} else {
-				for _, nm := range all {
-					if r.Bool() {
-						pick = append(pick, nm)
-					}
-				}
-			}
-			s.Events = append(s.Events, c12Ev{Op: "strip", Comp: comp, Names: pick})
+			s.Events = append(s.Events, genStrip(comp))
 		case x < 72:
-			s.Events = append(s.Events, c12Ev{Op: "restore", Comp: comp, UID: nextUID})
-			nextUID++
+			s.Events = append(s.Events, genRestore(comp))
 		case x < 74:
 			s.Events = append(s.Events, c12Ev{Op: "foreign", Comp: comp, Names: []string{Pick(r, namesOf(comp))}})
 		case x < 75:
@@ -816,7 +1474,8 @@ func c12Gen(r *Rng) c12Scn {
 			e := genSetXR()
 			s.Events = append(s.Events, e)
 		default:
-			s.Events = append(s.Events, c12Ev{Op: "fetch", XR: Pick(r, s.XRs).Name, Plan: c12GenPlan(r, 6)})
+			x := Pick(r, s.XRs)
+			s.Events = append(s.Events, decorate(c12Ev{Op: "fetch", XR: x.Name, Plan: c12GenPlan(r, 6)}, x.Comp, 5))
 		}
 	}
 	return s
@@ -847,6 +1506,19 @@ func c12Class(s *c12Scn, obs c12Obs) string {
 		has[e.Op] = true
 		if len(e.Plan) > 0 {
 			has["faults"] = true
+			for _, f := range e.Plan {
+				for _, c := range c12Classes {
+					if f.O == c {
+						has["errclass"] = true
+					}
+				}
+			}
+		}
+		if c12HasEnv(&e) {
+			has["interf"] = true
+		}
+		if e.Lag != nil && (e.Lag.Revs > 0 || e.Lag.Comps > 0 || e.Lag.XRs > 0) {
+			has["lag"] = true
 		}
 		switch e.Op {
 		case "edit":
@@ -901,6 +1573,9 @@ func c12Class(s *c12Scn, obs c12Obs) string {
 		size = "revs>=4"
 	}
 	parts := []string{size}
+	if len(s.Comps) > 1 {
+		parts = append(parts, fmt.Sprintf("comps=%d", len(s.Comps)))
+	}
 	if aba {
 		parts = append(parts, "aba")
 	}
@@ -913,8 +1588,16 @@ func c12Class(s *c12Scn, obs c12Obs) string {
 	if has["strip"] || has["restore"] {
 		parts = append(parts, "stripped")
 	}
-	if has["faults"] {
+	if has["errclass"] {
+		parts = append(parts, "errclass")
+	} else if has["faults"] {
 		parts = append(parts, "faults")
+	}
+	if has["interf"] {
+		parts = append(parts, "interf")
+	}
+	if has["lag"] {
+		parts = append(parts, "lag")
 	}
 	for _, k := range []string{"fetch:Manual", "fetch:Automatic+sel", "fetch:Automatic", "fetch:unset"} {
 		if has[k] {
@@ -928,13 +1611,52 @@ func c12Class(s *c12Scn, obs c12Obs) string {
 func c12Emit(c *Ctx, s *c12Scn, tag string) []int {
 	obs, mons, calls := c12Run(s)
 	cls := c12Class(s, obs)
-	if strings.HasPrefix(tag, "sweep") {
-		cls = tag // the fault position x outcome is the class of a sweep member
+	if strings.HasPrefix(tag, "sweep") || strings.HasPrefix(tag, "isweep") || strings.HasPrefix(tag, "lsweep") {
+		cls = tag // the position x outcome / action / lag is the class of a sweep member
 	} else if tag != "" {
 		cls = tag + "/" + cls
 	}
 	c.Emit(s, obs, mons, cls)
 	return calls
+}
+
+// c12SweepActs: the menu of an interference sweep (one action right before call k).
+func c12SweepActs(s *c12Scn, e *c12Ev) []c12Ev {
+	comp := e.Comp
+	if e.Op == "fetch" {
+		for _, x := range s.XRs {
+			if x.Name == e.XR {
+				comp = x.Comp
+			}
+		}
+	}
+	var names []string
+	for _, t := range s.Tab {
+		if t.Comp == comp {
+			names = append(names, t.Name)
+		}
+	}
+	acts := []c12Ev{
+		{Op: "strip", Comp: comp, Names: names},
+		{Op: "restore", Comp: comp, UID: 77},
+		{Op: "restore", Comp: comp, UID: 78, Keep: true},
+	}
+	for ci := range s.Contents {
+		if ci < 2 {
+			acts = append(acts, c12Ev{Op: "edit", Comp: comp, CI: ci})
+		}
+	}
+	if len(names) > 0 {
+		acts = append(acts, c12Ev{Op: "foreign", Comp: comp, Names: names[:1]})
+	}
+	if e.Op == "fetch" {
+		m := map[string]string{"channel": "dev"}
+		acts = append(acts, c12Ev{Op: "setxr", XR: e.XR, Policy: "Automatic", Sel: &m, Pin: "-"})
+		if len(names) > 0 {
+			acts = append(acts, c12Ev{Op: "setxr", XR: e.XR, Policy: "Manual", Pin: names[0]})
+		}
+	}
+	return acts
 }
 
 func init() {
@@ -950,8 +1672,9 @@ func init() {
 			s := c12Gen(c.Rng)
 			calls := c12Emit(c, &s, "")
 			budget--
-			// Fault sweep: for one reconcile/fetch of this history, every call
-			// index it issued x every outcome (quick: every 30th scenario; thorough: every 10th).
+			// Sweeps over one reconcile/fetch of this history (quick: every 30th scenario;
+			// thorough: every 10th): every call index it issued x every outcome / error class,
+			// x every action of the interference menu right before that call, and every cache lag.
 			every := 30
 			if c.Tier == "thorough" {
 				every = 10
@@ -969,16 +1692,50 @@ func init() {
 				continue
 			}
 			j := c.Rng.Intn(len(idx))
-			for k := 0; k < calls[j] && budget > 0; k++ {
-				for _, o := range c12Outcomes {
-					if budget <= 0 {
-						break
+			variant := func() c12Scn {
+				v := s
+				v.Events = append([]c12Ev{}, s.Events...)
+				return v
+			}
+			switch c.Rng.Intn(3) {
+			case 0:
+				for k := 0; k < calls[j] && budget > 0; k++ {
+					for _, o := range c12SweepOutcomes {
+						if budget <= 0 {
+							break
+						}
+						v := variant()
+						v.Events[idx[j]].Plan = []c12Fault{{K: k, O: o}}
+						c12Emit(c, &v, fmt.Sprintf("sweep/%s/k=%d/%s", s.Events[idx[j]].Op, k, o))
+						budget--
 					}
-					v := s
-					v.Events = append([]c12Ev{}, s.Events...)
-					v.Events[idx[j]].Plan = []c12Fault{{K: k, O: o}}
-					c12Emit(c, &v, fmt.Sprintf("sweep/%s/k=%d/%s", s.Events[idx[j]].Op, k, o))
-					budget--
+				}
+			case 1:
+				acts := c12SweepActs(&s, &s.Events[idx[j]])
+				for k := 0; k < calls[j] && budget > 0; k++ {
+					for _, a := range acts {
+						if budget <= 0 {
+							break
+						}
+						v := variant()
+						v.Events[idx[j]].Plan = nil
+						v.Events[idx[j]].Env = []c12EnvAt{{Before: k, Acts: []c12Ev{a}}}
+						c12Emit(c, &v, fmt.Sprintf("isweep/%s/k=%d/%s", s.Events[idx[j]].Op, k, a.Op))
+						budget--
+					}
+				}
+			default:
+				for _, d := range []int{1, 2, 3, 4, 6, 8} {
+					for _, l := range []c12Lag{{Revs: d}, {Comps: d}, {Revs: d, Comps: d}, {XRs: d}, {Revs: d, Until: 2}, {Revs: d, XRs: d, Until: 3}} {
+						if budget <= 0 || (l.XRs > 0 && s.Events[idx[j]].Op != "fetch") {
+							continue
+						}
+						v := variant()
+						l := l
+						v.Events[idx[j]].Lag = &l
+						c12Emit(c, &v, fmt.Sprintf("lsweep/%s/revs=%d,comps=%d,xrs=%d,until=%d", s.Events[idx[j]].Op, l.Revs, l.Comps, l.XRs, l.Until))
+						budget--
+					}
 				}
 			}
 		}
